@@ -45,7 +45,7 @@ RULE = ('random schemas (1-4 classes, 0-3 associations with 0-3 key attributes o
         '(quick: <= 6, and <= 7 on a sample), 50 random permutations otherwise; random partitions into 1-4 input '
         'calls / files / directory chain / wide directory / zip members / one file through the bridgepoint loader, each part '
         'ending with a newline, right after its last `;`, with a `-- comment` that no newline ends, or with a bare `--`; '
-        'API and clone construction; rejected inputs (duplicate class, unknown class or key in an association or '
+        'API and clone construction; rejected inputs (duplicate class, a class declaring an attribute name twice, unknown class or key in an association or '
         'identifier, key lists of different length, named INSERT with unequal lengths). Non-trivial = some association has both a linked and an '
         'unlinked (null, dangling) candidate pair; distinct = distinct statement text')
 EXHAUSTIVE = {'quick': False, 'thorough': False}
@@ -152,11 +152,14 @@ def _error_case(rng):
     stmts = None
     while not stmts or not any(s['t'] == 'cls' for s in stmts):
         stmts = G.gen_population(rng, max_rows=2, max_stmts=7)
-    kind = rng.choice(['dup-class', 'rop-class', 'rop-key', 'rop-len', 'uniq-class', 'named-len'])
+    kind = rng.choice(['dup-class', 'dup-attr', 'rop-class', 'rop-key', 'rop-len', 'uniq-class', 'named-len'])
     classes = [s for s in stmts if s['t'] == 'cls']
     c = rng.choice(classes)
     if kind == 'dup-class':
         stmts.append({'t': 'cls', 'kind': c['kind'], 'attrs': [['z', 'INTEGER']]})
+    elif kind == 'dup-attr':
+        # a further class declaring the same attribute name twice (define_class raises MetaModelException)
+        stmts.append({'t': 'cls', 'kind': 'KY', 'attrs': [['z', 'INTEGER'], ['y', 'STRING'], ['z', rng.choice(['INTEGER', 'STRING'])]]})
     elif kind == 'rop-class':
         a = {'t': 'assoc', 'rel': 'R9', 'sk': c['kind'], 'scard': 'MC', 'skeys': [c['attrs'][0][0]], 'sph': '',
              'tk': 'KZ', 'tcard': '1C', 'tkeys': ['a0'], 'tph': ''}
@@ -629,19 +632,22 @@ def _api_guard(stmts, raw, expected):
 
 
 def _predicted(stmts, raw, expected, order, drop=()):
-    """the pairs `new` can find: a referred row is found through its identifying attributes AS READ from the
-    instance (open finding api-dangling-chained-key: one that is itself referential reads None when the row's own
-    reference is dangling or null); `drop`: rows whose own links are taken to be missing (their `new` was aborted)"""
+    """the pairs `new` can find, row by row in creation order: a referred row is found through its identifying
+    attributes AS READ from the instance at that moment, i.e. through the links made so far (open finding
+    api-dangling-chained-key: an identifying attribute that is itself referential reads None when the row's own
+    reference is dangling or null — or was not found for the same reason); `drop`: rows whose own links are taken to
+    be missing (their `new` was aborted)"""
     pos = dict((i, k) for k, i in enumerate(order))
-    out = {}
-    for ai, pairs in expected.items():
-        a = stmts[ai]
-        keep = set()
-        for (s, t) in pairs:
-            if all(_reads(stmts, raw, expected, pos, t, tk, (), drop) == raw[t].get(tk) for tk in a['tkeys']):
-                keep.add((s, t))
-        out[ai] = keep
-    return out
+    made = dict((ai, set()) for ai in expected)
+    for s in order:
+        for ai in sorted(expected):
+            a = stmts[ai]
+            for (s2, t) in sorted(expected[ai]):
+                if s2 != s or pos.get(t, len(order)) >= pos[s]:
+                    continue
+                if all(_reads(stmts, raw, made, pos, t, tk, (), drop) == raw[t].get(tk) for tk in a['tkeys']):
+                    made[ai].add((s, t))
+    return made
 
 
 def _route_api(stmts, raw, order, clone_from=None):
